@@ -40,6 +40,16 @@ TracePod ==
   /\ n' = n + 1 /\ l' = l + 1
   /\ UNCHANGED <<par, gq, pgof, preq, pre, l0>>
 
+TraceDel ==
+  /\ l <= Len(Trace) /\ Trace[l].ev = "Del"
+  /\ LET e == Trace[l] IN
+       /\ st' = [st EXCEPT ![e.i] = "X"]
+       /\ EnvChange(pgof[e.i])
+       /\ Logged(e)
+       /\ last' = [a |-> "Del", i |-> e.i, w |-> 0, ch |-> FALSE, fix |-> FALSE]
+  /\ n' = n + 1 /\ l' = l + 1
+  /\ UNCHANGED <<par, gq, pgof, preq, pre, l0>>
+
 TraceFlip ==
   /\ l <= Len(Trace) /\ Trace[l].ev = "Flip"
   /\ LET e == Trace[l] IN
@@ -77,7 +87,7 @@ TraceDeploy ==
   /\ n' = n + 1 /\ l' = l + 1
   /\ UNCHANGED <<par, gq, pgof, preq, st, pre, pgst, qst, pgfresh, qfresh, pgfix, qfix, l0>>
 
-TraceNext == TracePod \/ TraceFlip \/ TraceRecPG \/ TraceRecQ \/ TraceDeploy
+TraceNext == TracePod \/ TraceDel \/ TraceFlip \/ TraceRecPG \/ TraceRecQ \/ TraceDeploy
 TraceSpec == TraceInit /\ [][TraceNext]_tvars
 
 \* ---- drift monitors ----
@@ -86,14 +96,14 @@ D_Shape == /\ Len(pgst) = Len(gq) /\ Len(qst) = Len(par) /\ Len(preq) = Len(pgof
            /\ \A g \in Groups : gq[g] \in Queues
            /\ \A p \in Pods : pgof[p] \in Groups
            /\ \A q \in Queues : par[q] \in 0..Len(par) /\ par[q] # q
-D_PodLifecycle == \A p \in Pods : st[p] \in {"PU", "PS", "R", "D"}
+D_PodLifecycle == \A p \in Pods : st[p] \in {"PU", "PS", "R", "D", "X"}
 \* environment events never touch a status; a reconcile touches only its own object
 D_OnlyOwnStatus ==
-  [][/\ (Trace[l].ev \in {"Pod", "Flip"} => (pgst' = pgst /\ qst' = qst))
+  [][/\ (Trace[l].ev \in {"Pod", "Del", "Flip"} => (pgst' = pgst /\ qst' = qst))
      /\ (Trace[l].ev = "RecPG" => (qst' = qst /\ \A g \in Groups : g # Trace[l].i => pgst'[g] = pgst[g]))
      /\ (Trace[l].ev = "RecQ" => (pgst' = pgst /\ \A q \in Queues : q # Trace[l].i => qst'[q] = qst[q]))
      /\ (Trace[l].ev = "Deploy" => (pgst' = pgst /\ qst' = qst))]_tvars
-D_Consumed == (l <= Len(Trace) /\ Trace[l].ev # "Scenario") => Trace[l].ev \in {"Pod", "Flip", "RecPG", "RecQ", "Deploy"}
+D_Consumed == (l <= Len(Trace) /\ Trace[l].ev # "Scenario") => Trace[l].ev \in {"Pod", "Del", "Flip", "RecPG", "RecQ", "Deploy"}
 
 (* ---- history exporter (model side) ---- *)
 Edge == PrintT("EDGE " \o ToJson([a |-> [a |-> last'.a, i |-> last'.i], s |-> Proj, t |-> Proj']))
